@@ -2,7 +2,7 @@
    For EVERY predicate bus/settle and search bound FUEL.  cnt_oc a b = number of business days in
    (a, b]; cnt_co a b = number in [a, b)  ("counting the result, not the start"). *)
 From Coq Require Import ZArith List Bool.
-From RL Require Import Base.Outcome Model.Dates Model.Calendar Proofs.CalendarP.
+From RL Require Import Base.Outcome Model.Dates Model.Calendar Proofs.CalendarP Proofs.CalExt.
 Import ListNotations.
 Open Scope Z_scope.
 
@@ -52,6 +52,16 @@ Proof. exact bus_date_range_rejects. Qed.
 Theorem C05_add_days : forall bus settle FUEL d n m s,
   add_days bus settle FUEL d n m s = roll bus settle FUEL (d + n) m s.
 Proof. exact add_days_spec. Qed.
+
+(* the same calendar listed differently (other order of holidays / weekdays, repeated entries — same_listing, Proofs/CalExt.v)
+   adds business days, lags, adds days and months and ranges identically, for every search bound *)
+Theorem C05_listing_free : forall c c', same_listing c c' -> forall FUEL,
+  (forall d n s, add_bus_days (cal_is_bus c) (cal_is_settle c) FUEL d n s = add_bus_days (cal_is_bus c') (cal_is_settle c') FUEL d n s) /\
+  (forall d n s, lag (cal_is_bus c) (cal_is_settle c) FUEL d n s = lag (cal_is_bus c') (cal_is_settle c') FUEL d n s) /\
+  (forall d n m s, add_days (cal_is_bus c) (cal_is_settle c) FUEL d n m s = add_days (cal_is_bus c') (cal_is_settle c') FUEL d n m s) /\
+  (forall d k m r s, add_months (cal_is_bus c) (cal_is_settle c) FUEL d k m r s = add_months (cal_is_bus c') (cal_is_settle c') FUEL d k m r s) /\
+  (forall a e, bus_date_range (cal_is_bus c) (cal_is_settle c) FUEL a e = bus_date_range (cal_is_bus c') (cal_is_settle c') FUEL a e).
+Proof. exact (fun c c' SL FUEL => proj2 (cal_ops_listing_free c c' SL FUEL)). Qed.
 
 Example C05_example :
   let bus := cal_is_bus (mkCal [5; 6] [19814]) in
